@@ -226,6 +226,12 @@ func installCompleteness(p *Program, id string, root *ssa.Function) []Obligation
 	for _, n := range names {
 		atoms = append(atoms, GhostAtom(n, "no", "yes"))
 	}
+	const entryAtLII = "r.log.GetEntry(p0.LastIncludedIndex)#0"
+	atoms = append(atoms,
+		GhostAtom("boundaryAheadOfLog", "no", "yes"), // the boundary was moved and the log has not been trimmed to it yet
+		CmpAtom("entryAtLII?nil", entryAtLII, "nil").Hist(),
+		CmpAtom("term(log[LII])?LIT", entryAtLII+".Term", "p0.LastIncludedTerm").Hist(),
+	)
 	const (
 		iState = iota
 		iDone
@@ -237,6 +243,9 @@ func installCompleteness(p *Program, id string, root *ssa.Function) []Obligation
 		iComm
 		iConf
 		iDisc
+		iAhead
+		iNil
+		iET
 	)
 	sp := NewSpace(atoms...)
 	a := NewAnalysis(p, sp)
@@ -246,7 +255,7 @@ func installCompleteness(p *Program, id string, root *ssa.Function) []Obligation
 			v := p.Canon(f, s.Val).S
 			switch {
 			case name == "lastIncludedIndex" && v == "p0.LastIncludedIndex":
-				return sp.Assign(st, iBIdx, 1)
+				return sp.Assign(sp.Assign(st, iBIdx, 1), iAhead, 1)
 			case name == "lastIncludedTerm" && v == "p0.LastIncludedTerm":
 				return sp.Assign(st, iBTerm, 1)
 			case name == "lastApplied" && v == "p0.LastIncludedIndex":
@@ -267,7 +276,9 @@ func installCompleteness(p *Program, id string, root *ssa.Function) []Obligation
 			}
 			switch iface + "." + m {
 			case "Log.DiscardEntries":
-				return sp.Assign(st, iDisc, 1)
+				return sp.Assign(sp.Assign(st, iDisc, 1), iAhead, 0)
+			case "Log.Compact":
+				return sp.Assign(st, iAhead, 0)
 			case "StateMachine.Restore":
 				return sp.Assign(st, iRestored, 1)
 			case "SnapshotFile.Close":
@@ -277,6 +288,12 @@ func installCompleteness(p *Program, id string, root *ssa.Function) []Obligation
 				}
 			}
 		}
+		if what, ok := a.isSectionEnd(in); ok && f.Parent == nil {
+			if _, isDefer := in.(*ssa.Defer); !isDefer {
+				n := instrOrdinal(in, func(x ssa.Instruction) bool { _, ok := a.isSectionEndStatic(x); return ok })
+				a.Observe("WINDOW "+what+ordSuffix(n)+" in (*Raft).InstallSnapshot", f, in, st)
+			}
+		}
 		if ret, ok := exitPoint(in); ok && f.Parent == nil && returnedError(ret) == "nil" {
 			n := instrOrdinal(ret, func(x ssa.Instruction) bool { _, ok := x.(*ssa.Return); return ok })
 			a.Observe(fmt.Sprintf("EXIT return #%d of (*Raft).InstallSnapshot", n), f, in, st)
@@ -284,7 +301,7 @@ func installCompleteness(p *Program, id string, root *ssa.Function) []Obligation
 		return st
 	}
 	entry := sp.Top()
-	for g := iPub; g <= iDisc; g++ {
+	for g := iPub; g <= iAhead; g++ {
 		entry = sp.Filter(entry, g, 1)
 	}
 	a.RunFrame(NewRootFrame(root), entry)
@@ -294,6 +311,20 @@ func installCompleteness(p *Program, id string, root *ssa.Function) []Obligation
 	exitPos := ""
 	nPub := 0
 	for _, o := range a.SortedObs() {
+		if strings.HasPrefix(o.Key, "WINDOW") {
+			// BOUNDARY-ATOMIC: when the log does not match the snapshot at its boundary, moving the boundary and
+			// resetting the log is one step: no other handler may run in between
+			obs := evalObs(a, id, []*Observation{o}, func(_ *Observation, pt int) bool {
+				matches := sp.Val(pt, iNil) != EQ && sp.Val(pt, iET) == EQ
+				return sp.Val(pt, iAhead) == 0 || matches
+			}, []int{iAhead, iNil, iET}, "the mutex is not released between moving the snapshot boundary and resetting a log that does not match the snapshot")
+			obs[0].Construct = "BOUNDARY-ATOMIC " + strings.TrimPrefix(o.Key, "WINDOW ")
+			if obs[0].Verdict == Violated {
+				obs[0].Detail += ": another request handled in this window sees the new boundary with the old log — an AppendEntries at the boundary is accepted, its entries are appended and acknowledged, and the log is then discarded"
+			}
+			out = append(out, obs...)
+			continue
+		}
 		if strings.HasPrefix(o.Key, "IS-DONE") {
 			nPub++
 			out = append(out, evalObs(a, id, []*Observation{o}, func(_ *Observation, pt int) bool { return sp.Val(pt, iDone) == 1 }, []int{iDone},
@@ -302,7 +333,7 @@ func installCompleteness(p *Program, id string, root *ssa.Function) []Obligation
 		}
 		exitPos = o.Pos
 		bad := sp.Where(o.State, func(pt int) bool {
-			if sp.Val(pt, iPub) == 1 && (sp.Val(pt, iBIdx) == 0 || sp.Val(pt, iBTerm) == 0) {
+			if sp.Val(pt, iPub) == 1 && sp.Val(pt, iState) != SD && (sp.Val(pt, iBIdx) == 0 || sp.Val(pt, iBTerm) == 0) {
 				return true
 			}
 			if sp.Val(pt, iRestored) == 1 && sp.Val(pt, iState) != SD {
